@@ -1,20 +1,20 @@
 (* C15 — responses written by the library can be read back by it *)
 From Coq Require Import Arith.
-From Rws Require Import Str Utf8 Num Fs UrlParse RangeSpec Request GenMime Mime StaticRes GenConsts Forms Server RespParse StrLemmas.
+From Rws Require Import Str Utf8 Num Unicase Fs UrlParse RangeSpec Request GenMime Mime StaticRes GenConsts Forms Server RespParse StrLemmas.
 Open Scope N_scope.
 
 (* ---------- reject: the status line must carry a registered code with that code's phrase (ASCII case-insensitively) ---------- *)
 Theorem status_line_shape line v c rsn : parse_status_line line = Some (v, c, rsn) ->
   exists rest code, split_once (truncate_nl_cr line) [32] = Some (v, rest) /\ split_once rest [32] = Some (code, rsn) /\
-    mem (upper v) version_list = true /\ parse_i16 code = Some (false, c) /\
-    exists p, find (fun p => N.eqb (fst p) c) status_table = Some p /\ upper (snd p) = upper rsn.
+    mem (uupper v) version_list = true /\ parse_i16 code = Some (false, c) /\
+    exists p, find (fun p => N.eqb (fst p) c) status_table = Some p /\ uupper (snd p) = uupper rsn.
 Proof.
   unfold parse_status_line. destruct (split_once (truncate_nl_cr line) [32]) as [[v' rest]|]; [|discriminate].
-  destruct (mem (upper v') version_list) eqn:Ev; cbn [negb]; [|discriminate].
+  destruct (mem (uupper v') version_list) eqn:Ev; cbn [negb]; [|discriminate].
   destruct (split_once rest [32]) as [[code rsn']|] eqn:Es; [|discriminate].
   destruct (parse_i16 code) as [[[|] c']|] eqn:Ec; try discriminate.
   destruct (find (fun p => N.eqb (fst p) c') status_table) as [p|] eqn:Ef; [|discriminate].
-  destruct (beqs (upper (snd p)) (upper rsn')) eqn:Eb; [|discriminate].
+  destruct (beqs (uupper (snd p)) (uupper rsn')) eqn:Eb; [|discriminate].
   intro H. inversion H; subst. exists rest, code. repeat split; auto. exists p. split; auto. apply beqs_eq, Eb.
 Qed.
 Theorem reject_unknown_status line v rest code rsn c :
@@ -23,9 +23,9 @@ Theorem reject_unknown_status line v rest code rsn c :
 Proof. intros H1 H2 H3 H4. unfold parse_status_line. rewrite H1. destruct (negb _); [reflexivity|]. rewrite H2, H3, H4. reflexivity. Qed.
 Theorem reject_mismatched_phrase line v rest code rsn c p :
   split_once (truncate_nl_cr line) [32] = Some (v, rest) -> split_once rest [32] = Some (code, rsn) -> parse_i16 code = Some (false, c) ->
-  find (fun p => N.eqb (fst p) c) status_table = Some p -> upper (snd p) <> upper rsn -> parse_status_line line = None.
+  find (fun p => N.eqb (fst p) c) status_table = Some p -> uupper (snd p) <> uupper rsn -> parse_status_line line = None.
 Proof. intros H1 H2 H3 H4 H5. unfold parse_status_line. rewrite H1. destruct (negb _); [reflexivity|]. rewrite H2, H3, H4.
-  destruct (beqs (upper (snd p)) (upper rsn)) eqn:E; [apply beqs_eq in E; contradiction|reflexivity]. Qed.
+  destruct (beqs (uupper (snd p)) (uupper rsn)) eqn:E; [apply beqs_eq in E; contradiction|reflexivity]. Qed.
 Theorem parse_needs_status_line input : parse_status_line (fst (split_line input)) = None -> response_parse input = PErr.
 Proof. intro H. unfold response_parse. destruct (split_line input) as [line rest]. cbn [fst] in H. destruct (negb (utf8_valid line)); [reflexivity|]. rewrite H. reflexivity. Qed.
 
